@@ -8,7 +8,7 @@ import hashlib
 from hypothesis import strategies as st
 
 from vlib import certs, memnet, srvsim, stacks, vloop
-from vlib.core import Lane, b2s, ok, s2b, viol
+from vlib.core import Lane, b2s, grey, ok, s2b, viol
 from vlib.faketransport import FakeTransport
 from vlib.nlog import setup_logging
 
@@ -278,6 +278,12 @@ def judge(case, log, S, disconnected, fp, peer_ip, chain_len=None):
             if hpath is not None and canon(str(hpath)) != canon(seen):
                 return viol("handler-acts-on-another-path", f"{e[0]} was given path {hpath!r} (= {canon(str(hpath))!r}) but the chain was consulted "
                             f"about {seen!r} (= {canon(seen)!r}) for {case['line']!r}", **info)
+    if not enters and not hidx and not disconnected:
+        wf0 = srvsim.parse_wf(S) if S else "empty"
+        if not isinstance(wf0, str) and not (20 <= wf0[0] <= 29):
+            # refused by the server itself before the chain was asked (a request it does not accept as it stands):
+            # nothing ran, nothing was admitted - what C04 asks for. Which requests a server accepts is C08's subject
+            return grey("refused-before-the-chain-was-consulted", **info)
     if ambiguous:
         # ';' inside a Titan path: whether it starts the parameters is the implementation's choice; only the relational
         # clauses above are required, no reference verdict is computed
